@@ -206,8 +206,10 @@ class PGPSignature(Armorable, ParentRef, PGPObject):
         """
         A ``set`` of :py:obj:`~constants.KeyFlags` specified in this signature, if any. Otherwise, an empty ``set``.
         """
-        if 'KeyFlags' in self._signature.subpackets:
-            return next(iter(self._signature.subpackets['h_KeyFlags'])).flags
+        # only a hashed Key Flags subpacket counts; one that sits in the unhashed area alone is not part of the signature
+        flags = self._signature.subpackets['h_KeyFlags']
+        if flags:
+            return next(iter(flags)).flags
         return set()
 
     @property
